@@ -67,9 +67,43 @@ pub fn td_line(rng: &mut Rng, maxvars: usize) -> String {
         }
         rng.shuffle(&mut raw);
     }
+    // directed family: guarded multiplexers — two or three different cubes over one or two guard
+    // variables, each implying `sel ? la : lb` over shared data variables with varying
+    // polarities.  Sub-functions and their negations then occur under several residual CNFs,
+    // which is when a hash-identified store answers from its table instead of the component
+    // cache (hits on the hash of a function and on the hash of its negation).
+    if maxvars >= 5 && !parity && rng.chance(1, 5) {
+        parity = true;
+        let vs = rng.perm(maxvars);
+        let ng = 1 + rng.below(2) as usize; // guard variables
+        let guards = &vs[..ng];
+        let rest = &vs[ng..];
+        let nsel = std::cmp::min(1 + rng.below(2) as usize, rest.len().saturating_sub(2));
+        let sels = &rest[..nsel];
+        let data = &rest[nsel..std::cmp::min(rest.len(), nsel + 2)];
+        raw.truncate(rng.below(2) as usize);
+        let ncubes = 2 + rng.below(2) as usize;
+        let mut cubes: Vec<u32> = (0..(1u32 << ng)).collect();
+        rng.shuffle(&mut cubes);
+        for &cube in cubes.iter().take(ncubes) {
+            // clause prefix: negation of the guard cube
+            let pre: Vec<(usize, bool)> = guards.iter().enumerate().map(|(i, &g)| (g, (cube >> i) & 1 == 0)).collect();
+            let sel = sels[rng.below(sels.len() as u64) as usize];
+            let (pa, pb) = (rng.coin(), rng.coin());
+            let (da, db) = (data[0], data[data.len() - 1]);
+            let mut c1 = pre.clone();
+            c1.push((sel, false));
+            c1.push((da, pa));
+            let mut c2 = pre.clone();
+            c2.push((sel, true));
+            c2.push((db, pb));
+            raw.push(c1);
+            raw.push(c2);
+        }
+    }
     let cnf = to_cnf(&raw);
     let n = cnf.num_vars();
-    let order = rng.perm(n);
+    let order = if rng.chance(1, 3) { (0..n).collect() } else { rng.perm(n) };
     let sem = if parity { rng.chance(3, 4) } else { rng.chance(1, 3) };
     let head = format!(
         "td n={} raw={} cnf={} order={} store={}",
